@@ -102,6 +102,8 @@ type FS struct {
 	// auth behaviour
 	AuthCheckErr map[uint32]string // by fid number of the attach: error text ("" = accept)
 	AuthInitErr  string
+	TeardownIn   string  // "ConnClosed" or "FidDestroy"
+	TeardownGate *vs.Sem // the next ConnClosed or FidDestroy call made for a disconnecting connection parks here (a slow clean-up in the implementation)
 	AuthReadGate *vs.Sem // the next AuthRead call parks here (an authentication protocol waiting for the other side)
 	ErrKind      string // what kind of error value the auth callbacks return: "" (*go9p.Error), "plain" (errors.New), "errno" (syscall.Errno), "wrapped" (fmt.Errorf with %w)
 	ErrAll       map[string]string // op name -> error (implementation failure injection)
@@ -583,6 +585,10 @@ func (fs *FS) FidDestroy(f *go9p.SrvFid) {
 	}
 	fs.destroyed[tok]++
 	fs.Log = append(fs.Log, Entry{Seq: vs.Seq(), Kind: "destroy", Conn: ci, Token: tok, User: userName(f.User)})
+	if g := fs.TeardownGate; g != nil && fs.TeardownIn == "FidDestroy" {
+		fs.TeardownGate = nil
+		g.Acquire()
+	}
 	if a := auxOf(f); a != nil && a.destroyGate != nil {
 		// an implementation slow to let go of the fid
 		g := a.destroyGate
@@ -597,6 +603,10 @@ func (fs *FS) ConnOpened(c *go9p.Conn) {
 
 func (fs *FS) ConnClosed(c *go9p.Conn) {
 	fs.Log = append(fs.Log, Entry{Seq: vs.Seq(), Kind: "connclose", Conn: fs.connIdx(c)})
+	if g := fs.TeardownGate; g != nil && fs.TeardownIn == "ConnClosed" {
+		fs.TeardownGate = nil
+		g.Acquire()
+	}
 }
 
 // --- variants that add optional interfaces -----------------------------------------
